@@ -6,7 +6,7 @@ Tie/search: generated race-free S4U programs (harness/mc3_prog.cpp interprets th
 under the rebuilt simgrid-mc with every reduction x explorer x strategy; the set of outcomes printed by the complete
 executions and the verdict are compared with the reference.
 """
-import json, os, re, shutil, tempfile
+import json, os, re, shutil, tempfile, time
 from concurrent.futures import ThreadPoolExecutor
 
 try:
@@ -522,6 +522,8 @@ def known_region(p, combo, mode, what):
             return "befs-uniform-incomplete"
     if algo == "DFS" and strat == "uniform" and red in ("dpor", "sdpor", "odpor") and missed:
         return "dfs-uniform-%s-incomplete" % red
+    if red == "odpor" and what == "checker-crash":
+        return "odpor-crash"
     if red == "odpor" and algo == "BeFS" and missed and uses(p, {RANDOM}):
         return "odpor-befs-random-incomplete"
     if mode == "B" and missed and ((algo == "BeFS" and red != "none") or red == "odpor"):
@@ -646,6 +648,7 @@ def run(ctx):
         items = [(p, None, i % 3 == 0) for i, p in enumerate(CORPUS + [x[0] for x in sel])]
     progs = [it[0] for it in items]
     models = run_models(progs)
+    ctx.notes.append("setup+proofs+reference done at %.0fs" % (time.time() - ctx.t0))
 
     work, dist = [], {"skipped-invalid-or-too-big": 0}
     tot_states = tot_trans = 0
@@ -666,6 +669,7 @@ def run(ctx):
     workB = [(p, m, [c for c in cs if c[2] == "none"]) for p, m, cs in work]
     resB = run_many(runner, [(p, m, cs if (m["deadlock"] or m["failure"]) else []) for p, m, cs in workB], ("B",))
 
+    ctx.notes.append("simgrid-mc runs done at %.0fs" % (time.time() - ctx.t0))
     model_fn = run_models
     nruns = traces = skipped = rejected = 0
     strict_fail = {}
